@@ -149,7 +149,7 @@ class LocalQueueCandidates:
             ]
             if new_current_instances_inds:
                 for ind in new_current_instances_inds:
-                    self.add_new_tracks(current_instances[ind])
+                    self.add_new_tracks([current_instances[ind]])
 
         return current_instances
 
